@@ -1473,7 +1473,11 @@ class MyPyAstVisitor:
                         for qualified_import in reexport_source.qualified_imports:
 
                             # ("json.dumps" is not "pkg._myjson.dumps")
-                            if f".{qname}".endswith(f".{qualified_import.qualified_name}") and (
+                            # ... and "import copy" names a module, not a declaration that is called copy
+                            if (
+                                "." in qualified_import.qualified_name
+                                and f".{qname}".endswith(f".{qualified_import.qualified_name}")
+                            ) and (
                                 qualified_import.alias is not None
                                 and not is_internal(qualified_import.alias)
                                 or (qualified_import.alias is None and public_name)
